@@ -451,8 +451,7 @@ func c12history(c *wk.Ctx, idx int, r *rand.Rand, path string, coarse bool) {
 			s := c12session(r)
 			if r.Intn(2) == 0 {
 				pi := r.Intn(len(pool))
-				cp := *pool[pi] // the same value stored again (possibly by another loader in between)
-				s = &cp
+				s = sessClone(pool[pi]) // the same value stored again (possibly by another loader in between)
 				hist += fmt.Sprintf("S%d=p%d ", li, pi)
 			} else {
 				hist += fmt.Sprintf("S%d ", li)
@@ -463,7 +462,11 @@ func c12history(c *wk.Ctx, idx int, r *rand.Rand, path string, coarse bool) {
 				c.Viol("C12", idx, "history/store-failed", fmt.Sprint(pm, err, st), hist)
 				return
 			}
-			model = s
+			model = sessClone(s)
+			if r.Intn(3) == 0 { // the caller goes on using (here: wiping) the object it handed to Store
+				sessScribble(s)
+				hist += "w "
+			}
 			if coarse {
 				// what a filesystem with one-second timestamps (FAT, HFS+, ext3, NFSv3) records
 				if fi, err := os.Stat(path); err == nil {
@@ -495,10 +498,33 @@ func c12history(c *wk.Ctx, idx int, r *rand.Rand, path string, coarse bool) {
 				c.Viol("C12", idx, fmt.Sprintf("history/stale-load/coarse-mtime=%v/loaders>1=%v", coarse, nl > 1), fmt.Sprintf("history %s (S=store L=load, digit=loader): last store was %s, load returned %s", hist, sessStr(model), sessStr(got)), hist)
 				return
 			}
+			if r.Intn(2) == 0 { // the caller changes its working copy (wipes the key, moves on to another salt / address); the file is untouched
+				sessScribble(got)
+				hist += "w "
+			}
 		}
 	}
 	c.Distinct("history", hist, coarse)
 	if idx%211 == 0 {
 		c.Sample(map[string]interface{}{"kind": "history", "ops": hist, "coarse_mtime": coarse, "loaders": nl})
 	}
+}
+
+func sessClone(s *session.Session) *session.Session {
+	cp := *s
+	cp.Key = append([]byte(nil), s.Key...)
+	cp.Hash = append([]byte(nil), s.Hash...)
+	return &cp
+}
+
+// sessScribble: what a caller may do to a session object that belongs to it.
+func sessScribble(s *session.Session) {
+	for i := range s.Key {
+		s.Key[i] = 0
+	}
+	for i := range s.Hash {
+		s.Hash[i] ^= 0xff
+	}
+	s.Salt = ^s.Salt
+	s.Hostname = "wiped:" + s.Hostname
 }
